@@ -899,3 +899,51 @@ def rf78b(run, units=('gen',)):
                                   'path on which it is neither linked into anything, nor freed, returned or handed over: it is never given back to '
                                   'the allocator' % (v, how, sx['l'], f.name), line=sx['l'])
     return n
+
+
+# ---------------------------------------------------------------------------------------------
+# RF109: c2mir's region allocator is released only where the session ends
+# ---------------------------------------------------------------------------------------------
+
+def rf109(run):
+    rule = 'RF109'
+    run.rule(rule, 'c2mir: blocks obtained with reg_malloc are referenced from tables that live for the whole c2mir session (str_add stores '
+                   'reg_malloc\'ed strings in str_tab / str_key_tab, created by c2mir_init and destroyed by c2mir_finish).  The release '
+                   'routine reg_memory_pop is therefore not reachable, in the call graph, from c2mir_compile; its callers lead only to '
+                   'c2mir_finish')
+    tu = run.tu('c2mir')
+    for nm in ('reg_memory_pop', 'reg_malloc', 'c2mir_compile', 'c2mir_finish', 'c2mir_init', 'str_add'):
+        tu.func(nm)
+    # the premise, read off the code: str_add allocates from the region and the tables are created in c2mir_init
+    sa = tu.func('str_add')
+    premise = any(x['k'] == 'CallExpr' and x.get('callee') == 'reg_malloc' for x in sa.walk()) and \
+        any(x['k'] == 'CallExpr' and (x.get('callee') or '').startswith('HTAB_tab_str_t') for x in sa.walk())
+    init_reach = tu.reachable(['c2mir_init'])
+    premise = premise and any(x['k'] == 'CallExpr' and (x.get('callee') or '').startswith('HTAB_tab_str_t') and (x.get('callee') or '').endswith('create')
+                              for g in init_reach for x in tu.funcs[g].walk())
+    if not premise:
+        raise F.AnalysisBroken('RF109: str_add no longer stores region memory in a session-lifetime table; the rule needs to be reviewed')
+    reach = tu.reachable(['c2mir_compile'])
+    run.functions_analysed.update(('c2mir', g) for g in ('reg_memory_pop', 'c2mir_compile', 'c2mir_finish', 'str_add'))
+    ok = 'reg_memory_pop' not in reach
+    run.ob(rule, ('reg_memory_pop',), ok, {'functions reachable from c2mir_compile': len(reach), 'reg_memory_pop among them': not ok})
+    if not ok:
+        # a call chain for the message
+        cg = tu.callgraph()
+        prev = {'c2mir_compile': None}
+        st = ['c2mir_compile']
+        while st:
+            x = st.pop(0)
+            for c in sorted(cg.get(x, ())):
+                if c in tu.funcs and c not in prev:
+                    prev[c] = x
+                    st.append(c)
+        chain, x = [], 'reg_memory_pop'
+        while x is not None:
+            chain.append(x)
+            x = prev.get(x)
+        g = tu.funcs[chain[1]] if len(chain) > 1 else tu.func('reg_memory_pop')
+        run.violation(rule, g, 'region released during the session', 'reg_memory_pop is reachable from c2mir_compile (%s): strings that str_add put into the '
+                      'session-lifetime string tables are returned to the allocator while the tables still point at them; the next '
+                      'c2mir_compile of the session reads freed memory (kw_add → str_exists_p)' % ' <- '.join(chain), line=g.line)
+    return 1
